@@ -282,6 +282,17 @@ R("concat_map", 1, lambda c: {"pool": c.pool(2), "f": c.fn("inner")}, lambda w, 
 R("flat_map_latest", 1, lambda c: {"pool": c.pool(2), "f": c.fn("inner")}, lambda w, n, a, i: i[0].pipe(ops.flat_map_latest(F(w, n, a, "f"))), {"cb", "pool"})
 R("switch_map", 1, lambda c: {"pool": c.pool(2), "f": c.fn("inner")}, lambda w, n, a, i: i[0].pipe(ops.switch_map(F(w, n, a, "f"))), {"cb", "pool"})
 R("switch_map_indexed", 1, lambda c: {"pool": c.pool(2), "f": c.fn("inner_i")}, lambda w, n, a, i: i[0].pipe(ops.switch_map_indexed(F(w, n, a, "f"))), {"cb", "pool"})
+def _fin(w, n, a, pool):
+    fin = F(w, n, a, "fin")
+    return [p.pipe(ops.finally_action(fin)) for p in pool]
+
+
+R("switch_map_finally", 1, lambda c: {"pool": c.pool(2), "f": c.fn("inner"), "fin": c.fn("action")},
+  lambda w, n, a, i: i[0].pipe(ops.switch_map(F(w, n, a, "f", _fin(w, n, a, P(w, a))))), {"cb", "pool"})
+R("concat_map_finally", 1, lambda c: {"pool": c.pool(2), "f": c.fn("inner"), "fin": c.fn("action")},
+  lambda w, n, a, i: i[0].pipe(ops.concat_map(F(w, n, a, "f", _fin(w, n, a, P(w, a))))), {"cb", "pool"})
+R("flat_map_finally", 1, lambda c: {"pool": c.pool(2), "f": c.fn("inner"), "fin": c.fn("action")},
+  lambda w, n, a, i: i[0].pipe(ops.flat_map(F(w, n, a, "f", _fin(w, n, a, P(w, a))))), {"cb", "pool"})
 R("map_merge_all", 1, lambda c: {"pool": c.pool(2), "f": c.fn("inner")}, lambda w, n, a, i: i[0].pipe(ops.map(F(w, n, a, "f")), ops.merge_all()), {"cb", "pool"})
 R("map_merge_mc", 1, lambda c: {"pool": c.pool(2), "f": c.fn("inner"), "mc": c.rng.randrange(1, 4)},
   lambda w, n, a, i: i[0].pipe(ops.map(F(w, n, a, "f")), ops.merge(max_concurrent=a["mc"])), {"cb", "pool"})
